@@ -358,6 +358,8 @@ def desugar(text, rules, counts):
             text, c = _r_collect(text)
         elif r == "R-MAPITER":
             text, c = _r_mapiter(text)
+        elif r == "R-MAPCOLLECT":
+            text, c = _r_mapcollect(text)
         elif r in ("R-QCLOSURE", "R-UNDERSCORE"):
             text, c = _r_qclosure(text)
         elif r == "R-REC":
@@ -366,6 +368,8 @@ def desugar(text, rules, counts):
             c = text.count("vx_task")  # the hoisting itself is done by hoist_spawn() before the other rules
         elif r == "R-SEGMENT":
             c = 1  # done by segment() before the other rules
+        elif r == "R-FLATMAP":
+            c = text.count("vx_fm.append(")  # done by hoist_flat_map() before the other rules
         elif r == "R-SLICE1":
             text, c = _r_slice1(text)
         elif r == "R-UFCS":
@@ -601,9 +605,61 @@ def _r_collect(text):
     for mt in reversed(list(re.finditer(r"(\w+)\.iter\(\)\s*\.cloned\(\)\s*\.collect\(\)", m))):
         text = text[:mt.start()] + "vx_collect_set(%s)" % mt.group(1) + text[mt.end():]
         n += 1
+    # `let X = EXPR.into_iter().collect::<HashMap<_, _>>();` -> `let X = vx_pairs_into_map(EXPR);` (trusted helper: every key of the map comes
+    # from a pair of the vector and carries the value of one such pair; every pair's key is in the map)
+    m = mask(text)
+    for mt in reversed(list(re.finditer(r"\.into_iter\(\)\s*\.collect::<\s*HashMap<_,\s*_>\s*>\(\)\s*;", m))):
+        eq = m.rfind("=", 0, mt.start())
+        while eq > 0 and m[eq - 1] in "=!<>" or m[eq + 1] == "=":
+            eq = m.rfind("=", 0, eq)
+        a = skip_ws(m, eq + 1)
+        text = text[:a] + "vx_pairs_into_map(" + text[a:mt.start()] + ")" + "\n" * text.count("\n", mt.start(), mt.end()) + ";" + text[mt.end():]
+        n += 1
     m = mask(text)
     for mt in reversed(list(re.finditer(r"(\w+)\.into_iter\(\)\s*\.collect::<\s*Vec<_>\s*>\(\)", m))):
         text = text[:mt.start()] + "vx_set_into_vec(%s)" % mt.group(1) + text[mt.end():]
+        n += 1
+    return text, n
+
+
+def _r_mapcollect(text):
+    """R-MAPCOLLECT: `let X: T = RECV.iter().map(|PAT| EXPR).collect();` (T a Vec or a HashSet, named in the let) ->
+         let X: T = { let mut vx_mc: T = <Vec|HashSet>::new(); let mut vx_ci: usize = 0;
+                      while vx_ci < RECV.len() { let PAT = &RECV[vx_ci]; vx_mc.<push|insert>(EXPR); vx_ci += 1; } vx_mc };
+    PAT and EXPR are the source text. ASSUMED: std's map + collect over a slice iterator visits the elements in order."""
+    n = 0
+    while True:
+        m = mask(text)
+        mt = re.search(r"let\s+(?:mut\s+)?\w+\s*:\s*([^=;]+?)\s*=\s*([A-Za-z_][\w\.]*?)\s*\.iter\(\)\s*\.map\(", m)
+        if not mt:
+            break
+        po = mt.end() - 1
+        pc = match_close(m, po)
+        a = skip_ws(m, po + 1)
+        if m[a] != "|":
+            raise SpliceError("R-MAPCOLLECT: argument of map is not a closure")
+        bar2 = m.index("|", a + 1)
+        pat = text[a + 1:bar2].strip()
+        eb = pc
+        while m[eb - 1] in " \t\r\n,":
+            eb -= 1
+        expr = text[bar2 + 1:eb].strip()
+        mc = re.match(r"\s*\.collect\(\)\s*;", m[pc + 1:])
+        if not mc:
+            raise SpliceError("R-MAPCOLLECT: map is not followed by .collect();")
+        end = pc + 1 + mc.end() - 1
+        ty = _ws(text[mt.start(1):mt.end(1)])
+        if ty.startswith("HashSet<"):
+            ctor, op = "HashSet::new()", "insert"
+        elif ty.startswith("Vec<"):
+            ctor, op = "Vec::new()", "push"
+        else:
+            raise SpliceError("R-MAPCOLLECT: collection type %s not supported" % ty)
+        recv = mt.group(2)
+        nl = text.count("\n", mt.start(2), end)
+        new = ("{ let mut vx_mc: %s = %s; let mut vx_ci: usize = 0; while vx_ci < %s.len() { let %s = &%s[vx_ci]; vx_mc.%s(%s); vx_ci += 1; } vx_mc }"
+               % (text[mt.start(1):mt.end(1)].strip(), ctor, recv, pat, recv, op, expr))
+        text = text[:mt.start(2)] + new + "\n" * nl + text[end:]
         n += 1
     return text, n
 
@@ -723,6 +779,57 @@ def hoist_spawn(text, cfgs):
         fn_text = "    async fn %s%s(%s) -> %s %s" % (cfg["name"], cfg.get("generics", gen_text), cfg["params"], cfg["returns"], body)
         hoisted.append((cfg, fn_text, line_off))
         text = text[:po + 1] + (" " if text[po] == "=" else "") + call + "\n" * nl + text[e:]
+    hoisted.reverse()
+    return text, hoisted
+
+
+def hoist_flat_map(text, cfgs):
+    """R-FLATMAP: `= RECV.iter().flat_map(|PAT| BODY).collect::<Vec<_>>();` -> a counting loop over RECV that appends, per element, the
+    result of `Self::<name>(&RECV[i], <captures>)`; BODY is hoisted verbatim into the associated
+    `fn <name>(vx_arg: <elem type>, <captures with declared types>) -> <declared type> { let PAT = vx_arg; BODY }` (Verus has no
+    iterator adapters; a `return` inside the closure returns from the hoisted function, as it returns from the closure). The capture
+    list and the types are declared in unit.toml; rustc checks them. ASSUMED: std's flat_map + collect over a slice iterator is the
+    in-order concatenation of the closure results. Returns (new text, [(cfg, hoisted fn text, line offset of BODY)])."""
+    m = mask(text)
+    sites = []
+    for mt in re.finditer(r"=\s*([A-Za-z_][\w\.]*?)\s*\.iter\(\)\s*\.flat_map\(", m):
+        po = mt.end() - 1
+        pc = match_close(m, po)
+        inner_a = skip_ws(m, po + 1)
+        if m[inner_a] != "|":
+            raise SpliceError("R-FLATMAP: argument of flat_map is not a closure")
+        bar2 = m.index("|", inner_a + 1)
+        pat = text[inner_a + 1:bar2].strip()
+        body_a = skip_ws(m, bar2 + 1)
+        body_b = pc
+        while m[body_b - 1] in " \t\r\n,":
+            body_b -= 1
+        mc = re.match(r"\s*\.collect(?:::<[^;]*?>)?\(\)\s*;", m[pc + 1:])
+        if not mc:
+            raise SpliceError("R-FLATMAP: flat_map is not followed by .collect()")
+        end = pc + 1 + mc.end() - 1   # position of the `;`
+        sites.append((mt.start(), end, mt.group(1), pat, body_a, body_b))
+    if len(sites) != len(cfgs):
+        raise SpliceError("R-FLATMAP: %d flat_map sites, %d declared" % (len(sites), len(cfgs)))
+    sh = FnShape(text)
+    gen_text = ""
+    mg = re.search(r"\bfn\s+\w+\s*(<)", sh.m)
+    if mg and mg.start(1) < sh.params_open:
+        gen_text = text[mg.start(1):sh.params_open].strip()
+    hoisted = []
+    for (cfg, (a, e, recv, pat, ba, bb)) in reversed(list(zip(cfgs, sites))):
+        body = text[ba:bb]
+        names = [q.split(":")[0].strip() for q in _split_commas(cfg["params"])] if cfg.get("params") else []
+        args = ", " + cfg["call_params"] if cfg.get("call_params") else "".join(", " + n for n in names)
+        call = "%s%s%s(&%s[vx_fi]%s)" % ("" if cfg.get("free") else "Self::", cfg["name"], cfg.get("turbofish", ""), recv, args)
+        loop = ("= { let mut vx_fm: %s = Vec::new(); let mut vx_fi: usize = 0; while vx_fi < %s.len() { let mut vx_part = %s; "
+                "vx_fm.append(&mut vx_part); vx_fi += 1; } vx_fm }" % (cfg["returns"], recv, call))
+        nl = text.count("\n", a, e)
+        line_off = text.count("\n", 0, ba)
+        fn_text = "    fn %s%s(vx_arg: %s%s) -> %s {\n        let %s = vx_arg;\n        %s\n    }" % (
+            cfg["name"], cfg.get("generics", gen_text), cfg["elem"], "".join(", " + q for q in _split_commas(cfg.get("params", ""))), cfg["returns"], pat, body)
+        hoisted.append((cfg, fn_text, max(0, line_off - 2)))
+        text = text[:a] + loop + "\n" * nl + text[e:]
     hoisted.reverse()
     return text, hoisted
 
